@@ -668,6 +668,29 @@ fn run_request(w: &mut World<'_>, ri: usize, req: &Req, shape: &str) {
         }
     };
     let faulted = fired_error || fired_crash || crashed || req.abandon;
+    // abstract state reached at finalisation (reach measure)
+    {
+        let idk = match (&rm.presented, rm.renamed) {
+            (Some(_), false) => "existing",
+            (Some(_), true) => "renamed",
+            (None, false) => "new",
+            (None, true) => "new-cycled",
+        };
+        let srv = match &rm.srv {
+            Srv::NotLoaded => "not-loaded",
+            Srv::Loaded { changed: true, .. } => "changed",
+            Srv::Loaded { exists: Tri::Yes, .. } => "unchanged",
+            Srv::Loaded { .. } => "absent",
+            Srv::Deleted => "marked",
+            Srv::Unknown => "unknown",
+        };
+        let outcome = match &finalize_result {
+            Some(Ok(())) => "ok",
+            Some(Err(_)) => "err",
+            None => "dropped",
+        };
+        w.out.states.push(format!("{idk}|{srv}|cli_touched={}|inv={}|store=[{}]|{outcome}", rm.cli_touched, rm.inv, store_calls));
+    }
     match (&finalize_result, faulted) {
         (Some(Ok(())), false) => {
             w.out.count("finalize_ok", 1);
